@@ -356,6 +356,15 @@ func applyFault(kind string, g []byte, rnd *rand.Rand) []byte {
 
 // runSession performs one real Reader.ReadDocument against a freshly personalised chip.
 func runSession(p *perso.Passport, o sessOpt, maxLe int, faults []faultSpec, aaChallenge []byte, seed int64) (out sessOutcome) {
+	out = runSessionOnce(p, o, maxLe, faults, aaChallenge, seed)
+	if out.dur > 15*time.Second || strings.Contains(out.err, "did not return") {
+		// a wall-clock observation: measured again, alone, before anything is concluded from it
+		core.Calm(func() { out = runSessionOnce(p, o, maxLe, faults, aaChallenge, seed) })
+	}
+	return out
+}
+
+func runSessionOnce(p *perso.Passport, o sessOpt, maxLe int, faults []faultSpec, aaChallenge []byte, seed int64) (out sessOutcome) {
 	rnd := rand.New(rand.NewSource(seed))
 	chip, err := p.Chip()
 	if err != nil {
@@ -964,7 +973,7 @@ func C11(c *core.Ctx) {
 		rp := map[string]any{"config": b.cfg, "options": b.opt, "faults": j.faults, "seed": j.seed,
 			"real": fmt.Sprintf("err=%q obtained=%v pace=%s cam=%s bac=%s aa=%s ca=%s complete=%v pa=%v trusted=%v chipAuth=%s", o.err, o.obtained, o.pace, o.cam, o.bac, o.aa, o.ca, o.complete, o.pa, o.trusted, o.chipAuth)}
 		safetyViolations(c, "C11", name, passports[j.b], o, rp)
-		if o.dur > 30*time.Second {
+		if o.dur > core.Stretch(30*time.Second) {
 			c.Violation("C11:slow", fmt.Sprintf("read took %s (%s)", o.dur, name), rp)
 		}
 		// first clause (Session.tla NoSilentLoss): no error and no step outcome changed => no file was lost
